@@ -290,3 +290,92 @@ func sqliteTokens(k keys.Kind) {
 		}
 	}
 }
+
+// hangUps: the client goes away (its request context is cancelled) while the server is still processing the FINAL
+// message of DI or TO0, after the effect was stored. However the request ends, the session must be over: no session
+// row left, and the final message sent again with the same token is refused and stores nothing more.
+func hangUps(k keys.Kind) {
+	base := "/dev/shm"
+	if _, err := os.Stat(base); err != nil {
+		base = "/var/tmp"
+	}
+	dir, err := os.MkdirTemp(base, "verif-c08h-")
+	if err != nil {
+		r.Fatal("%v", err)
+	}
+	defer os.RemoveAll(dir)
+	for _, proto := range []string{"DI", "TO0"} {
+		bg := context.Background()
+		db, err := sqlite.Open(filepath.Join(dir, "hang-"+proto+".sqlite"), "")
+		if err != nil {
+			r.Fatal("sqlite: %v", err)
+		}
+		for _, kk := range keys.Kinds {
+			key := keys.Get(kk.Alg, "owner1")
+			chain := []*x509.Certificate{keys.SelfSigned(kk.Alg+"-owner1", key)}
+			_ = db.AddOwnerKey(kk.Type, key, chain)
+			_ = db.AddManufacturerKey(kk.Type, key, chain)
+		}
+		srv := lab.NewServer("sql", "owner1", db, noMods{})
+		ctx, cancel := context.WithCancel(bg)
+		wire := lab.NewWire(srv)
+		last := map[string]int{"DI": 12, "TO0": 22}[proto]
+		var lastBody []byte
+		var lastTok string
+		wire.Pre = func(x *lab.Exchange) {
+			if x.MsgType == last {
+				lastBody, lastTok = bytes.Clone(x.ReqBody), x.ReqHeader.Get("Authorization")
+			}
+		}
+		dev := lab.NewDevice(k, protocol.X509KeyEnc, "device")
+		count := func(table string) int {
+			var c int
+			_ = db.DB().QueryRow("SELECT COUNT(*) FROM " + table).Scan(&c)
+			return c
+		}
+		effectTable := "vouchers"
+		switch proto {
+		case "DI":
+			srv.DI.AfterVoucherPersist = func(context.Context, fdo.Voucher) error { cancel(); return nil }
+			_ = dev.DI(ctx, wire.Transport())
+		case "TO0":
+			if err := dev.DI(bg, lab.NewWire(srv).Transport()); err != nil {
+				r.Fatal("hang-up layer: DI: %v", err)
+			}
+			ov, err := db.RemoveVoucher(bg, dev.Cred.GUID)
+			if err != nil {
+				r.Fatal("hang-up layer: %v", err)
+			}
+			xv, err := lab.Extend(ov, keys.Get(k.Alg, "owner1"), keys.Get(k.Alg, "owner1"), k)
+			if err != nil {
+				r.Fatal("hang-up layer: %v", err)
+			}
+			if err := db.AddVoucher(bg, xv); err != nil {
+				r.Fatal("hang-up layer: %v", err)
+			}
+			srv.TO0.AcceptVoucher = func(_ context.Context, _ fdo.Voucher, ttl uint32) (uint32, error) { cancel(); return ttl, nil }
+			c0 := &fdo.TO0Client{Vouchers: db, OwnerKeys: db, TTL: 3600}
+			_, _ = c0.RegisterBlob(ctx, wire.Transport(), dev.Cred.GUID, lab.DefaultAddrs())
+			effectTable = "rv_blobs"
+		}
+		cancel()
+		r.Evaluations.Add(1)
+		r.States.Add(1)
+		repl := map[string]any{"layer": "hang-up", "proto": proto}
+		effects := count(effectTable)
+		if lastTok == "" || lastBody == nil {
+			r.Violation("harness:hang-up-layer", proto+": the final message was not seen", repl)
+			_ = db.Close()
+			continue
+		}
+		if n := count("sessions"); n != 0 {
+			r.Violation("session-state-survives:client-hang-up", fmt.Sprintf("%s over the SQLite store: the client hung up while its final message %d was being processed (effect stored: %d row(s)); %d session row(s) remain", proto, last, effects, n), repl)
+		}
+		x := lab.NewWire(srv).Send(last, lastTok, lastBody)
+		if x.RespType != 255 {
+			r.Violation("dead-token-accepted:client-hang-up", fmt.Sprintf("%s over the SQLite store: final message %d sent again with the token of the finished run was answered with %d", proto, last, x.RespType), repl)
+		}
+		r.Distinct(fmt.Sprintf("hang-up|%s|sessions=%d|again=%d", proto, count("sessions"), x.RespType))
+		_ = db.Close()
+	}
+}
